@@ -46,15 +46,7 @@ def _degenerate(sid) -> bool:
     return False
 
 
-def roundtrip(t: str) -> bool:
-    """
-    Concrete typed Sid PRE+t+SUF: Sid(path=sid.path(c), config=c) == sid; path(c) is pure; the two configurations
-    give root + the same tail; no path template => None, never an exception.
-    pre: len(t) <= N
-    pre: '?' not in t and ':' not in t
-    post: _
-    """
-    sid = Sid(_cat(PRE, t, SUF))
+def _rt(sid) -> bool:
     c = CONFIG
     if not sid:
         return sid.path(c) is None or fail("untyped-has-path")
@@ -71,6 +63,8 @@ def roundtrip(t: str) -> bool:
     back = Sid(path=ps, config=c)
     if back != sid or back.type != sid.type or back.fields != sid.fields:
         return fail("path-roundtrip")
+    if list(back.fields.items()) != list(sid.fields.items()) or back.keytype != sid.keytype or back.parent != sid.parent:
+        return fail("path-roundtrip-changes-field-order")      # same uri, but it navigates differently (C03)
     other = sid.path(OTHER[c])
     if other is None:
         return fail("other-config-no-path")
@@ -82,6 +76,33 @@ def roundtrip(t: str) -> bool:
     if Sid(path=ps, config=OTHER[c]):
         return fail("path-resolves-under-other-configuration")
     return True
+
+
+def roundtrip(t: str) -> bool:
+    """
+    Concrete typed Sid PRE+t+SUF: Sid(path=sid.path(c), config=c) == sid; path(c) is pure; the two configurations
+    give root + the same tail; no path template => None, never an exception.
+    pre: len(t) <= N
+    pre: '?' not in t and ':' not in t
+    post: _
+    """
+    return _rt(Sid(_cat(PRE, t, SUF)))
+
+
+BASE = envstr("VF_BASE", "h/a/x/v1/m")
+KEY = envstr("VF_KEY", "n")
+
+
+def roundtrip_fields(t: str) -> bool:
+    """
+    The same for a Sid built from FIELDS: the value of one free key is any text (also the characters '?' and ':' that
+    a Sid string cannot carry in a value).
+    pre: len(t) <= N
+    post: _
+    """
+    f = dict(Sid(BASE).fields)
+    f[KEY] = t
+    return _rt(Sid(fields=f))
 
 
 def injective(a: str, b: str) -> bool:
